@@ -161,14 +161,23 @@ theorem wire_types_in_fragment :
     (Fdo.Gen.Schemas.names.filter fun n =>
       match Fdo.Gen.Schemas.byName n with
       | some s => !(s.inFragment && decide (s.ptrDepth ≤ 63))
-      | none => true) = ["cose.Key", "DevmodModulesChunk"] ∧
+      | none => true) = [] ∧
     Fdo.Gen.Schemas.names.length = 69 := by decide +kernel
 
 /-- since the fifth round `interface{}` targets are inside: the bare `any`, the EAT claim map
-(label ↦ any) and the COSE_Sign1 object that carries it -/
+(label ↦ any), the COSE_Sign1 object that carries it, COSE_Key and the devmod modules chunk -/
 theorem any_targets_in_fragment :
     Fdo.Gen.Schemas.s_any.inFragment = true ∧ Fdo.Gen.Schemas.s_EAT.inFragment = true ∧
-    Fdo.Gen.Schemas.s_Sign1Tag_EAT_.inFragment = true := by decide +kernel
+    Fdo.Gen.Schemas.s_Sign1Tag_EAT_.inFragment = true ∧ Fdo.Gen.Schemas.s_cose_Key.inFragment = true ∧
+    Fdo.Gen.Schemas.s_DevmodModulesChunk.inFragment = true := by decide +kernel
+
+/-- Non-vacuity for the two raw-pass types: an EC2 COSE_Key {1: 2, -1: 1, -2: h'01', -3: h'02'} and a
+modules chunk [0, 2, "a", "bc"] conform. -/
+example :
+    conf (fun _ => true) 100 maxDepth .coseKey
+      (.map [(.int 1, .any (.int 2)), (.int (-1), .any (.int 1)), (.int (-2), .any (.bytes [1])), (.int (-3), .any (.bytes [2]))]) = true ∧
+    conf (fun _ => true) 100 maxDepth .chunk (.strct [.int 0, .int 2, .list [.text [0x61], .text [0x62, 0x63]]]) = true := by
+  decide +kernel
 
 /-- Non-vacuity for `any`: an EAT-like claim map {10: h'0102', 256: [1, "a"], -3: true} conforms. -/
 example :
